@@ -45,6 +45,7 @@ class Ctx(object):
         self.benign = None
         self._fb = None
         self.only = None       # replay filter
+        self._alias = None     # rule-id map while rules of another property's module are borrowed
 
     @property
     def fb(self):
@@ -52,19 +53,44 @@ class Ctx(object):
             self._fb = facts.load()
         return self._fb
 
+    def borrow(self, run, mapping, why):
+        """run the rules of another property's module and keep the ones named in mapping {their id: id here}: they decide a
+        clause that is a necessary condition of this property as well (why). Everything else that module reports is dropped."""
+        if self._alias is not None:
+            raise AnalysisBroken('nested borrow')
+        self._alias = dict(mapping)
+        self._alias_why = why
+        try:
+            run(self)
+        finally:
+            self._alias = None
+
     def rule(self, rid, text, minimum=1, star=False):
+        if self._alias is not None:
+            if rid not in self._alias:
+                return
+            text = '%s [shared with %s: %s]' % (text, rid, self._alias_why)
+            rid = self._alias[rid]
         self.rules[rid] = {'text': text, 'min': minimum, 'star': star, 'count': 0}
 
     def touch(self, fn):
+        if self._alias is not None and not getattr(self, '_in_ob', False):
+            return      # borrowed module: only functions of the kept rules count (added by ob)
         self.analysed_functions.add('%s@%s:%d' % (fn.name, fn.relfile, fn.line))
         self.analysed_tus.add(fn.tu)
 
     def ob(self, rid, fn, nid, ok, construct, detail='', nontrivial=True, witness=None, status=None, site=None):
         """register one obligation. construct = normalised, position-independent identity of the instance."""
+        if self._alias is not None:
+            if rid not in self._alias:
+                return None
+            rid = self._alias[rid]
         if rid not in self.rules:
             raise AnalysisBroken('rule %s not declared' % rid)
         if fn is not None:
+            self._in_ob = True
             self.touch(fn)
+            self._in_ob = False
         st = status or ('ok' if ok else 'violated')
         self.rules[rid]['count'] += 1
         o = {
